@@ -113,10 +113,14 @@ struct E1 // the exception type try_call is asked to catch (polymorphic, like st
   E1(E1 const &) = default;
   E1 &operator=(E1 const &) = default;
   virtual ~E1() = default;
+  // what the converter observes goes through the dynamic type: a handler that is given a sliced copy of the caught
+  // exception (a base-class object) sees the base answer
+  virtual int code() const { return d; }
 };
 struct E1d : E1 // derived from the caught type: caught too (catch by reference to the base)
 {
   using E1::E1;
+  int code() const override { return (d + 1) % 3; }
 };
 struct E2 // any other exception type
 {
@@ -1835,8 +1839,8 @@ std::string op(std::vector<std::string> const &t)
         },
         [&f](E1 const &e) -> E
         {
-          lg("t", {e.d});
-          return f.at(ix(e.d));
+          lg("t", {e.code()});
+          return f.at(ix(e.code()));
         }));
   }
   if (o == "e.sopt" && n == 3)
